@@ -464,8 +464,37 @@ def outfile_new(eng, st, args, kwargs, line):
     mode = kwargs.get("mode", args[1] if len(args) > 1 else VStr("r"))
     cl = chunklist_new(eng, st, "real", None)
     oid = eng.new_oid(st, {"mode": mode, "nbytes": VInt(0), "hdr_writes": VInt(0), "hdr_after_data": VBool(False),
-                           "seeks": VInt(0), "closed": VBool(False), "elems": cl, "ebits": VInt(0)})
+                           "seeks": VInt(0), "closed": VBool(False), "elems": cl, "ebits": VInt(0), "buffered": VBool(False)})
     return val(st, VObj(oid, "OutFile"))
+
+
+def buffered_wrap(eng, st, args, kwargs, line):
+    """io.BufferedWriter(raw) / io.BufferedRandom(raw): the same output file behind a user-space buffer - what has been
+    written need not be on disk when a write returns (ghost flag `buffered`)."""
+    raw = args[0] if args else None
+    if not (isinstance(raw, VObj) and raw.cls == "OutFile"):
+        raise OutOfSubset(f"line {line}: buffered wrapper around {raw!r}")
+    st.objs[raw.oid]["buffered"] = VBool(True)
+    return val(st, raw)
+
+
+def builtin_open(eng, st, args, kwargs, line):
+    """open(name, mode) for writing in binary mode returns a BUFFERED stream unless buffering=0."""
+    mode = kwargs.get("mode", args[1] if len(args) > 1 else VStr("r"))
+    if isinstance(args[0], VFileName) or not (isinstance(mode, VStr) and ("w" in mode.s or "a" in mode.s or "+" in mode.s)):
+        raise OutOfSubset(f"line {line}: open() of an input file")
+    outs = outfile_new(eng, st, args, kwargs, line)
+    buf = kwargs.get("buffering", args[2] if len(args) > 2 else None)
+    unbuffered = isinstance(buf, VInt) and smt.conc_int(buf.t) == 0 and "b" in mode.s
+    for st2, oc in outs:
+        st2.objs[oc.value.oid]["buffered"] = VBool(not unbuffered)
+    return outs
+
+
+MODELS["io.BufferedWriter"] = buffered_wrap
+MODELS["io.BufferedRandom"] = buffered_wrap
+MODELS["builtins.open"] = builtin_open
+MODELS["io.open"] = builtin_open
 
 
 @model("OutFile.write")
